@@ -533,7 +533,7 @@ func runCarriage(c CarriageCase) *pbt.Result {
 
 var carriageSpec = pbt.Register(pbt.Spec[CarriageCase]{
 	Prop: "C07", Name: "carriage",
-	Rule: "pack type x version (70% a version-gate constant of the code or its neighbour, else random in one of the five families) x generated values for every scalar field (numeric from the boundary catalogue, strings 0..65535 bytes around the caps); the set of carried fields is learnt from the writer by perturbing one field at a time; non-trivial = version adjacent to a gate and >= 1 gated field (a field whose carriage changes somewhere along the version grid) non-default; distinct by (type, version, bytes)",
+	Rule:  "pack type x version (70% a version-gate constant of the code or its neighbour, else random in one of the five families) x generated values for every scalar field (numeric from the boundary catalogue, strings 0..65535 bytes around the caps); the set of carried fields is learnt from the writer by perturbing one field at a time; non-trivial = version adjacent to a gate and >= 1 gated field (a field whose carriage changes somewhere along the version grid) non-default; distinct by (type, version, bytes)",
 	Quick: 6000, Thorough: 200000,
 	Draw: drawCarriage, Run: runCarriage,
 })
@@ -595,7 +595,10 @@ var gridSweep = pbt.RegisterSweep(pbt.Sweep{
 		r := pbt.SafeRun(func() *pbt.Result { return runCarriage(gridCase(i)) })
 		return r.NT, r.Err
 	},
-	Show: func(i uint64) interface{} { c := gridCase(i); return map[string]interface{}{"type": c.Type, "ver": c.Ver} },
+	Show: func(i uint64) interface{} {
+		c := gridCase(i)
+		return map[string]interface{}{"type": c.Type, "ver": c.Ver}
+	},
 })
 
 func TestCarriageGrid(t *testing.T) {
